@@ -241,6 +241,26 @@ func (i *vIdP) RoundTrip(req *http.Request) (*http.Response, error) {
 		}
 		return vResp(req, 404, "text/plain", "not found"), nil
 	}
+	if req.URL.Host == "nodisc.example" {
+		// an issuer WITHOUT a discovery document: its keys sit at the conventional /.well-known/jwks.json (the first key set)
+		if req.URL.Path == "/.well-known/jwks.json" {
+			return vResp(req, 200, "application/json", vJWKS()), nil
+		}
+		return vResp(req, 404, "text/plain", "not found"), nil
+	}
+	if req.URL.Host == "idp3.example" {
+		// a third issuer with discovery and a key set of its OWN (the second RSA key only)
+		switch req.URL.Path {
+		case "/.well-known/openid-configuration":
+			return vResp(req, 200, "application/json", `{"issuer":"https://idp3.example","authorization_endpoint":"https://idp3.example/authorize","token_endpoint":"https://idp3.example/token",`+
+				`"jwks_uri":"https://idp3.example/keys","id_token_signing_alg_values_supported":["RS256"]}`), nil
+		case "/keys":
+			vKeys()
+			return vResp(req, 200, "application/json", fmt.Sprintf(`{"keys":[{"kty":"RSA","kid":"rsa2","use":"sig","alg":"RS256","n":"%s","e":"%s"}]}`,
+				vB64(vKeyRSA2.rsa.PublicKey.N.Bytes()), vB64(big.NewInt(int64(vKeyRSA2.rsa.PublicKey.E)).Bytes()))), nil
+		}
+		return vResp(req, 404, "text/plain", "not found"), nil
+	}
 	if req.URL.Host != "idp.example" {
 		return nil, fmt.Errorf("verif: no route to host %s", req.URL.Host)
 	}
